@@ -39,6 +39,26 @@ pub fn tracing() -> bool {
     TRACE.load(Ordering::Relaxed)
 }
 
+/// In trace mode: header of a case that is announced operation by operation
+/// (`announce_op`); the parent assembles header + operations.
+pub fn announce_case_header(header: &J) {
+    if tracing() {
+        let out = std::io::stdout();
+        let mut l = out.lock();
+        let _ = writeln!(l, "M {}", header.to_string());
+        let _ = l.flush();
+    }
+}
+
+pub fn announce_op(op: &J) {
+    if tracing() {
+        let out = std::io::stdout();
+        let mut l = out.lock();
+        let _ = writeln!(l, "O {}", op.to_string());
+        let _ = l.flush();
+    }
+}
+
 /// In trace mode, prints the case about to be executed (flushes), so a parent
 /// process can tell which case was in flight when this process died.
 pub fn announce_case(case: &J) {
@@ -373,6 +393,8 @@ pub fn run_worker(launcher: &Launcher, spec: &WorkerSpec) -> WorkerResult {
     let stdout = child.stdout.take().unwrap();
     let mut in_flight: Option<u64> = None;
     let mut last_case: Option<String> = None;
+    let mut case_header: Option<String> = None;
+    let mut case_ops: Vec<String> = Vec::new();
     for line in BufReader::new(stdout).lines().map_while(Result::ok) {
         let (tag, rest) = match line.split_once(' ') {
             Some(p) => p,
@@ -382,8 +404,15 @@ pub fn run_worker(launcher: &Launcher, spec: &WorkerSpec) -> WorkerResult {
             "B" => {
                 in_flight = rest.trim().parse().ok();
                 last_case = None;
+                case_header = None;
+                case_ops.clear();
             }
             "C" => last_case = Some(rest.to_string()),
+            "M" => {
+                case_header = Some(rest.to_string());
+                case_ops.clear();
+            }
+            "O" => case_ops.push(rest.to_string()),
             "E" => {
                 let mut it = rest.split_whitespace();
                 let run: Option<u64> = it.next().and_then(|s| s.parse().ok());
@@ -428,6 +457,12 @@ pub fn run_worker(launcher: &Launcher, spec: &WorkerSpec) -> WorkerResult {
     if !ok || res.stats.is_none() {
         res.crashed_run = in_flight;
         res.crashed_case = last_case.and_then(|c| J::parse(&c).ok());
+        if res.crashed_case.is_none() {
+            if let Some(h) = case_header.and_then(|h| J::parse(&h).ok()) {
+                let ops: Vec<J> = case_ops.iter().filter_map(|o| J::parse(o).ok()).collect();
+                res.crashed_case = Some(h.set("ops", J::Arr(ops)));
+            }
+        }
     }
     if let (Some(stats), Some(p)) = (res.stats.as_mut(), &spec.sets_file) {
         let _ = stats.read_sets(p);
